@@ -440,33 +440,71 @@ func (c *Ctx) c12Visit() {
 		if f := p.MutexField(rel, "mbox"); f != nil {
 			locks = append(locks, opsFor(f))
 		}
-		eng.EachInstr(vm, func(in ssa.Instruction) {
-			call, ok := in.(*ssa.Call)
-			if !ok {
-				return
+		// the visitor may be called in VisitMailboxes itself or in a helper of the package that
+		// receives it (visitMailboxDirs(names, f))
+		var vfns []*ssa.Function
+		for g := range p.SyncReach(vm) {
+			if eng.FuncPkgPath(g) == eng.FuncPkgPath(vm) {
+				vfns = append(vfns, g)
 			}
-			if _, isParam := call.Call.Value.(*ssa.Parameter); !isParam {
-				return
-			}
-			cons := "visitor@" + shortFn(vm)
-			held := false
-			for _, lo := range locks {
-				if !neverHeld(vm, in, lo) {
-					held = true
+		}
+		sortFuncs(vfns)
+		nVis := 0
+		for _, g := range vfns {
+			g := g
+			eng.EachInstr(g, func(in ssa.Instruction) {
+				call, ok := in.(*ssa.Call)
+				if !ok {
+					return
 				}
-			}
-			if held {
-				r.Bad("C12/VISIT", cons, p.InstrPos(in), "the visitor runs while a store lock is held: its RemoveMessage takes the same lock and deadlocks the scan")
-				return
-			}
-			// freshness of the slice handed over
-			fresh, why := c.freshSlice(call.Call.Args[0], 0)
-			if !fresh {
-				r.Bad("C12/VISIT", cons+":fresh", p.InstrPos(in), "the visitor receives %s: removals during the visit mutate the list being iterated", why)
-				return
-			}
-			r.Ok("C12/VISIT", cons, p.InstrPos(in), "visitor called lock-free with a freshly made slice")
-		})
+				prm, isParam := call.Call.Value.(*ssa.Parameter)
+				if !isParam {
+					if u, isU := call.Call.Value.(*ssa.UnOp); isU {
+						if cell := eng.CellOf(u.X); cell != nil {
+							if sts := eng.CellStores(cell); len(sts) == 1 {
+								prm, isParam = sts[0].Val.(*ssa.Parameter)
+							}
+						}
+					}
+				}
+				if !isParam || !visitorSigOfType(prm.Type()) {
+					return
+				}
+				if av, isP := p.Actual(prm).(*ssa.Parameter); !isP || av.Parent() != vm {
+					return
+				}
+				nVis++
+				cons := "visitor@" + shortFn(vm)
+				held := false
+				for _, lo := range locks {
+					if !neverHeld(g, in, lo) {
+						held = true
+					}
+					if g != vm {
+						for _, cs := range p.StaticCallSites(g) {
+							site := cs.Instr.(ssa.Instruction)
+							if !neverHeld(site.Parent(), site, lo) {
+								held = true
+							}
+						}
+					}
+				}
+				if held {
+					r.Bad("C12/VISIT", cons, p.InstrPos(in), "the visitor runs while a store lock is held: its RemoveMessage takes the same lock and deadlocks the scan")
+					return
+				}
+				// freshness of the slice handed over
+				fresh, why := c.freshSlice(call.Call.Args[0], 0)
+				if !fresh {
+					r.Bad("C12/VISIT", cons+":fresh", p.InstrPos(in), "the visitor receives %s: removals during the visit mutate the list being iterated", why)
+					return
+				}
+				r.Ok("C12/VISIT", cons, p.InstrPos(in), "visitor called lock-free with a freshly made slice")
+			})
+		}
+		if nVis == 0 {
+			r.Undecided("C12/VISIT", "visitor@"+shortFn(vm), p.Pos(vm.Pos()), "the call of the visitor was not found in VisitMailboxes or the helpers it runs")
+		}
 	}
 }
 
